@@ -15,9 +15,9 @@ import (
 func propC17() *fw.Prop {
 	return &fw.Prop{
 		ID: "C17", Level: "exploration",
-		Rule:        "implication monitor over (check, run) pairs of the SAME text: well-typed generated scripts (which check clean and run successfully on generous balances — the control) receive one type-breaking edit (literal of another type in any typed position incl. inside monetary literals and + / − operands, mis-declared variable with a value of its new declared type, removed declaration, wrong arity, unknown or misplaced function, allotment / unbounded / @world source under send-all, ill-typed arithmetic) and are then checked and executed with values of the declared types. Violation: no error-severity diagnostic but the run fails with a type error, unbound variable/function, bad arity or unknown type; or no diagnostic at all but the run fails on the shape of a send-all source. Distinct = (edit kind, position class, checker silent / not).",
+		Rule:        "implication monitor over (check, run) pairs of the SAME text: well-typed generated scripts (which check clean and run successfully on generous balances — the control) receive one type-breaking edit (literal of another type in any typed position incl. inside monetary literals and + / − operands, mis-declared variable with a value of its new declared type, a declared variable written in a later position of another type, the edited script placed after 249..1001 warning-drawing statements, removed declaration, wrong arity, unknown or misplaced function, allotment / unbounded / @world source under send-all, ill-typed arithmetic) and are then checked and executed with values of the declared types. Violation: no error-severity diagnostic but the run fails with a type error, unbound variable/function, bad arity or unknown type; or no diagnostic at all but the run fails on the shape of a send-all source. Distinct = (edit kind, position class, checker silent / not).",
 		Assumptions: []string{trustedBase},
-		Require:     []string{"edits_checked", "edits_flagged_by_checker", "edits_checker_silent", "edits_failing_statically_at_run_time", "edit_infix", "edit_origin-forward-reference"},
+		Require:     []string{"edits_checked", "edits_flagged_by_checker", "edits_checker_silent", "edits_failing_statically_at_run_time", "edit_infix", "edit_origin-forward-reference", "edit_declared-variable-in-wrong-slot", "edits_after_many_warnings"},
 		Run:         runC17,
 	}
 }
@@ -208,7 +208,28 @@ func goodValue(r *rng.R, t string) string {
 func typeEdit(r *rng.R, cs *gen.Case) (kind, where string) {
 	sc := cs.Script
 	for attempt := 0; attempt < 10; attempt++ {
-		switch r.Intn(14) {
+		switch r.Intn(16) {
+		case 14, 15: // a declared variable written where another type is required (its other uses stay right)
+			if len(sc.Vars) == 0 {
+				continue
+			}
+			d := sc.Vars[r.Intn(len(sc.Vars))]
+			var cands []slot
+			for _, s := range exprSlots(sc) {
+				if s.want != "any" && s.want != d.Type {
+					if v, isVar := s.get().(*gen.Var); isVar && v.Name == d.Name {
+						continue
+					}
+					cands = append(cands, s)
+				}
+			}
+			if len(cands) == 0 {
+				continue
+			}
+			// mostly a late slot, so that correctly typed uses of the variable come first
+			s := cands[len(cands)-1-r.Intn((len(cands)+1)/2)]
+			s.set(gen.V(d.Name))
+			return "declared-variable-in-wrong-slot", s.where
 		case 12, 13: // unknown declared type, on a plain or on a metadata-backed variable
 			var plain []*gen.VarDecl
 			for _, d := range sc.Vars {
@@ -463,6 +484,26 @@ func runC17(c *fw.Ctx) {
 		kind, where := typeEdit(c.Rng(id+"/edit"), cs)
 		if kind == "" {
 			continue
+		}
+		if i%16 == 5 {
+			// many statements that each draw a warning (and run fine) come before the edited script
+			w := []int{249, 250, 251, 300, 999, 1001}[(i/16)%6]
+			pre := make([]gen.Stmt, 0, w+len(cs.Script.Stmts))
+			for k := 0; k < w; k++ {
+				sd := &gen.Send{Sent: &gen.SentValue{E: gen.M("USD", "1")}, Src: gen.SA("world"), Dst: &gen.DstAccount{E: gen.A("sink")}}
+				switch k % 3 {
+				case 0: // redundant remaining
+					sd.Dst = &gen.DstAllot{Items: []*gen.DstAllotItem{{A: &gen.AllotLit{Lit: &gen.Ratio{Text: "1/1"}}, To: &gen.KOD{To: &gen.DstAccount{E: gen.A("sink")}}}, {A: &gen.AllotRemaining{}, To: &gen.KOD{Kept: true}}}}
+				case 1: // @world with an overdraft clause
+					sd.Src = &gen.SrcOverdraft{Addr: gen.A("world")}
+				default: // the unbounded account is not the last one
+					sd.Src = &gen.SrcInorder{Srcs: []gen.Source{gen.SA("world"), gen.SA("a")}}
+				}
+				pre = append(pre, sd)
+			}
+			cs.Script.Stmts = append(pre, cs.Script.Stmts...)
+			where += ">after-" + itoa(w) + "-warnings"
+			c.Count("edits_after_many_warnings", 1)
 		}
 		text := gen.PrintCanonical(cs.Script).Text
 		input := func() any {
